@@ -24,7 +24,7 @@
     in `i32` with the counts cast by `as i32`: that is the exact sum reduced to `i32` (`wrapI32`);
   * `set_inexact` = `sticky ||` a stored digit after the 34th is not `0`.
 
-  `u64` arithmetic wraps (`add64`, `sub64`, `shl64` of `DecModel/PackHelpers.lean`; the crate is built with
+  `u64` arithmetic wraps (`AH.add64`, `AH.sub64`, `AH.shl64` of `DecModel/ArithHelpers.lean`; the crate is built with
   overflow checks off).  `__mul_64x64_to_128_fast` is the transcription `AH.mul64x64to128Fast` of
   `DecModel/ArithHelpers.lean`; `bid_get_BID128` is the word-level model `PackH.get_BID128` of
   `DecModel/PackHelpers.lean` (`none` = a table index out of range).
@@ -63,8 +63,8 @@ def digitWord (ch : Nat) : Nat := wordOfI32 ((ch : Int) - 48)
 
 /-- `coeff2 = c + c;  c = (coeff2 << 2) + coeff2 + (*ch as BID_UINT64) - ('0' as BID_UINT64)` -/
 def chainStep (c ch : Nat) : Nat :=
-  let coeff2 := add64 c c
-  sub64 (add64 (add64 (shl64 coeff2 2) coeff2) ch) 48
+  let coeff2 := AH.add64 c c
+  AH.sub64 (AH.add64 (AH.add64 (AH.shl64 coeff2 2) coeff2) ch) 48
 
 /-- `for ch in &buffer[a..b] { … }` -/
 def chain (c : Nat) (cs : Bytes) : Nat := cs.foldl chainStep c
@@ -83,8 +83,8 @@ def anyAboveZero (cs : Bytes) : Bool := cs.any (fun c => decide (c > 48))
 if CX.w[0] < coeff_low { CX.w[1] += 1 }` -/
 def assemble (coeffHigh scaleHigh coeffLow : Nat) : U128 :=
   let CX := AH.mul64x64to128Fast coeffHigh scaleHigh
-  let w0 := add64 CX.w0 coeffLow
-  let w1 := if w0 < coeffLow then add64 CX.w1 1 else CX.w1
+  let w0 := AH.add64 CX.w0 coeffLow
+  let w1 := if w0 < coeffLow then AH.add64 CX.w1 1 else CX.w1
   (w0, w1)
 
 /-- `bid_get_BID128 (sign_x, dec_expon, &CX, rnd_mode, pfpsf)` and the pattern of its result -/
@@ -98,7 +98,7 @@ def smallPath (mode : Mode) (signX : Nat) (arr : Bytes) (n : Nat) (decExpon : In
   if n = 0 then
     -- line 512: `sign_x | ((dec_expon.clamp(0, DECIMAL_MAX_EXPON_128) as BID_UINT64) << 49)`
     let ex : Int := if decExpon < 0 then 0 else if decExpon > 12287 then 12287 else decExpon
-    some (bits128 (0, signX ||| shl64 ex.toNat 49), 0)
+    some (bits128 (0, signX ||| AH.shl64 ex.toNat 49), 0)
   else if n ≤ 19 then do
     let coeffHigh ← readRun arr 0 n                    -- buffer[0], &buffer[1..ndigits_total]
     pack signX decExpon (coeffHigh, 0) mode 0
@@ -122,12 +122,17 @@ def carryOf (mode : Mode) (signX : Nat) (arr : Bytes) (n : Nat) (decExpon : Int)
       let tail ← slice arr i n
       some (if anyAboveZero tail then 1 else carry)
     else some carry
-  | .rdn => do
-    let tail ← slice arr 34 n        -- evaluated only when `sign_x != 0`; in range either way
-    some (if signX ≠ 0 ∧ anyAboveZero tail then 1 else 0)
-  | .rup => do
-    let tail ← slice arr 34 n
-    some (if signX = 0 ∧ anyAboveZero tail then 1 else 0)
+  | .rdn =>
+    -- `if sign_x != 0 && buffer[i..n].iter().any(..) { carry = 1 }`: the slice is formed only behind the sign test
+    if signX ≠ 0 then do
+      let tail ← slice arr 34 n
+      some (if anyAboveZero tail then 1 else 0)
+    else some 0
+  | .rup =>
+    if signX = 0 then do
+      let tail ← slice arr 34 n
+      some (if anyAboveZero tail then 1 else 0)
+    else some 0
   | .rtz => some 0
   | .rna => do
     let b : Nat ← arr[34]?
@@ -150,9 +155,9 @@ def largePath (mode : Mode) (signX : Nat) (arr : Bytes) (n : Nat) (decExpon : In
   -- lines 619–627: the result will be subnormal: keep a 35th (sticky) digit and let `bid_get_BID128` round once
   let scaled : Bool := decide (decExpon < 0) && decide (decExpon > -34)
   let scaleHigh : Nat := if scaled then 1000000000000000000 else 100000000000000000
-  let coeffLow : Nat := if scaled then add64 (shl64 coeffLow 3) (shl64 coeffLow 1) else coeffLow
+  let coeffLow : Nat := if scaled then AH.add64 (AH.shl64 coeffLow 3) (AH.shl64 coeffLow 1) else coeffLow
   let decExpon : Int := if scaled then wrapI32 (decExpon - 1) else decExpon
-  let coeffLow := add64 coeffLow carry
+  let coeffLow := AH.add64 coeffLow carry
   let CX := assemble coeffHigh scaleHigh coeffLow
   let fpsf : Nat := if setInexact then fInexact else 0
   pack signX decExpon CX mode fpsf
